@@ -124,6 +124,18 @@ def run(ctx):
                           what="own recurrence vs mpmath", n=1)
                 ctx.close("table_vs_scipy", np.asarray(fn(float(a), float(b))), mp, key + "/value_mp", rtol=0, atol=eps_tab,
                           what=f"SphHarm{l} vs mpmath", data={"l": l, "theta": a, "phi": b}, n=1)
+        # ---- the same angles in other scalar representations (numpy scalars as produced by array indexing, 0-d arrays,
+        #      integers; single precision is not fed: its arithmetic legitimately loses 1e-5 at l = 10): the same numbers must give the same table
+        for a, b in zip(th[:12], ph[:12]):
+            for rep, (x, y) in (("np.float64", (np.float64(a), np.float64(b))), ("0-d array", (np.asarray(a), np.asarray(b))),
+                                ("int", (int(round(a)), int(round(b))))):
+                ra_, rb_ = (float(int(round(a))), float(int(round(b)))) if rep == "int" else (a, b)
+                ok, v = ctx.call(key + "/scalar_representation", fn, x, y, data={"l": l, "theta": x, "phi": y, "representation": rep})
+                if ok:
+                    tol_ = eps_tab
+                    good = np.shape(v) == (2 * l + 1,) and np.abs(np.asarray(v, dtype=complex) - sph_harm_y(l, ms, ra_, rb_)).max() <= tol_
+                    ctx.check("scalar_representations", bool(good), key + "/scalar_representation",
+                              lambda: f"l={l}: angles given as {rep} ({x!r}, {y!r}) do not give Y_lm", {"l": l, "representation": rep})
         # ---- (3) dispatcher
         for a, b in [(0.3, 0.7), (2.0, -2.0), (0.0, 0.0)] + [(float(x), float(y)) for x, y in zip(th[:9], ph[:9])]:
             ok, v = ctx.call("sph_harm_l", SH.sph_harm_l, l, a, b, data={"l": l})
